@@ -31,6 +31,11 @@ func main() {
 		return
 	case "worker":
 		os.Exit(worker(os.Args[2:]))
+	case "c18child":
+		if len(os.Args) < 4 {
+			os.Exit(2)
+		}
+		os.Exit(checks.C18Child(os.Args[2], os.Args[3]))
 	}
 	os.Exit(parent(os.Args[1:]))
 }
